@@ -135,7 +135,7 @@ struct Runner {
             pending.clear();
             return;
         }
-        if (plan.profile == "C06" && onlyAbsentPairMismatches()) {
+        if (onlyAbsentPairMismatches()) {
             bool mine = false;
             for (auto &v : pending) if (v.prop == plan.profile) mine = true;
             if (!mine) {
@@ -903,7 +903,7 @@ struct Runner {
         curOp = "replica_build";
         sweep(*B, mb, "replicaB");
         curOp = keep;
-        if (!pending.empty() && !(plan.profile == "C06" && onlyAbsentPairMismatches())) return;
+        if (!pending.empty() && !onlyAbsentPairMismatches()) return;
         bool expect = m.sameGraph(mb);
         if (expect) res.probes.inc("replica_expected_equal"); else res.probes.inc("replica_expected_different");
         eqOracle(*g, *B, expect, mode == 0 ? "replica_same" : mode == 1 ? "replica_diff" : "replica_indep");
@@ -977,13 +977,15 @@ struct Runner {
             if (m.n == 0) res.probes.inc("size0_observed");
             if (m.n == 1) res.probes.inc("size1_observed");
         }
+        // reader tasks start on the object as the history left it - if the last steps ran without observers, whatever a const
+        // method caches lazily is stale or empty at that moment; the final sweep comes after the readers
+        if (!stop && !plan.tasks.empty()) racePhase();
         if (!stop) {
             curOp = "end";
             if (sweepPending) sweep(*g, m, "final");
             checkFrozen(true);
             settle();
         }
-        if (!stop && !plan.tasks.empty()) racePhase();
         res.digest = dg.h;
         res.rawDigest = raw.h ^ dg.h;
         res.steps = (int64_t)plan.ops.size() + observerCalls;
